@@ -7,7 +7,7 @@
 import LiquidModel.Drv.Render
 import LiquidModel.Drv.FilterOp
 import LiquidModel.Spec.C12
-namespace Liquid.Drv
+namespace Liquid.Drv.C12
 open Liquid Liquid.Codec Liquid.C12
 
 /-! ### codecs -/
@@ -576,4 +576,4 @@ def c12tOp (args : List String) : String :=
   | some (s, []) => s
   | _ => "bad-op c12t"
 
-end Liquid.Drv
+end Liquid.Drv.C12
